@@ -30,6 +30,8 @@ type tfunc struct {
 
 func (t tfunc) Func(ctx context.Context) interface{} { return t.f(ctx) }
 
+type whoKey struct{}
+
 // plainFunc wraps an ordinary Go function as flamingo.TemplateFunc
 func plainFunc(f interface{}) flamingo.TemplateFunc {
 	return tfunc{func(context.Context) interface{} { return f }}
@@ -49,7 +51,17 @@ func moduleFuncs() map[string]flamingo.TemplateFunc {
 		"escapeHtml": &templatefunctions.EscapeHTMLFunc{},
 		"parseInt":   &templatefunctions.ParseInt{},
 		"debug":      templatefunctions.DebugFunc{},
-		"vpIdent":    plainFunc(func(x interface{}) interface{} { return x }),
+		// a function bound to the request context, as url() / get() / data() of a flamingo application are: it answers with
+		// what THIS render's context carries
+		"vpWho": tfunc{func(ctx context.Context) interface{} {
+			return func() string {
+				if v, ok := ctx.Value(whoKey{}).(string); ok {
+					return "who:" + v + ";"
+				}
+				return "who:nobody;"
+			}
+		}},
+		"vpIdent": plainFunc(func(x interface{}) interface{} { return x }),
 		// an application that registers a template function called "range" makes `range(a, b)` compile to the built-in __Range
 		"range": plainFunc(func(x interface{}) interface{} { return x }),
 	}
